@@ -37,6 +37,10 @@ pub struct Shell {
     pub tail: String,
     /// blanks before `>` of the end tag
     pub end_tail: String,
+    /// malformed stream only: text put after the last attribute that quick-xml's attribute iterator
+    /// cannot split (` junk`, ` x=`, ` y=unquoted`): `Some(Err(AttrError))` when the iteration
+    /// reaches it – the event encoding marks it with one attribute of empty key and value (`,=`)
+    pub broken: String,
 }
 
 impl Shell {
@@ -239,6 +243,7 @@ fn start_tag(sh: &Shell, selfclose: bool) -> String {
         s.push_str(&a.raw);
         s.push(a.quote);
     }
+    s.push_str(&sh.broken);
     s.push_str(&sh.tail);
     s.push_str(if selfclose { "/>" } else { ">" });
     s
@@ -250,6 +255,9 @@ fn start_event(sh: &Shell, selfclose: bool) -> String {
         s.push_str(&fhex(a.key.as_bytes()));
         s.push('=');
         s.push_str(&fhex(a.raw.as_bytes()));
+    }
+    if !sh.broken.is_empty() {
+        s.push_str(",=");
     }
     s
 }
@@ -340,8 +348,9 @@ pub fn request_of(events: &[String]) -> String {
     s
 }
 
-/// the same event list obtained from quick-xml itself (self-check of `events_of`; `None` = an
-/// attribute list quick-xml cannot even split)
+/// the same event list obtained from quick-xml itself (self-check of `events_of`); an attribute
+/// syntax error (`Some(Err(AttrError))` of the iterator) is the marker `,=`, after which the tag's
+/// list ends; the iteration runs `with_checks(false)` as the parser's does since /repo ae885a6
 pub fn qx_events(xml: &[u8]) -> Option<Vec<String>> {
     use quick_xml::events::Event;
     let mut r = quick_xml::Reader::from_reader(xml);
@@ -353,11 +362,18 @@ pub fn qx_events(xml: &[u8]) -> Option<Vec<String>> {
     fn enc(kind: &str, e: &quick_xml::events::BytesStart<'_>) -> Option<String> {
         let mut s = format!("{},{}", kind, fhex(e.name().into_inner()));
         for a in e.attributes().with_checks(false) {
-            let a = a.ok()?;
-            s.push(',');
-            s.push_str(&fhex(a.key.into_inner()));
-            s.push('=');
-            s.push_str(&fhex(&a.value));
+            match a {
+                Ok(a) => {
+                    s.push(',');
+                    s.push_str(&fhex(a.key.into_inner()));
+                    s.push('=');
+                    s.push_str(&fhex(&a.value));
+                }
+                Err(_) => {
+                    s.push_str(",=");
+                    break;
+                }
+            }
         }
         Some(s)
     }
